@@ -153,6 +153,178 @@ theorem c20_assignment_exact (env : Env ν) (st : Store ν) (i : Nat) (a : Assig
     rw [if_neg (fun e => hj e.symm)] at this
     exact this
 
+/-- **A stored value changes only AT a call that is authorised — by the settings and by the callback's answer to
+    exactly that call.**  Take any store (in particular the store reached by any prefix of any history, with its
+    callback-call counter `st.calls`) and any single operation after which genome `i` shows something else under gene
+    `n` than before.  Then the operation is either an `add_gene` of `n` on `i` (mutations enabled at that moment, or the
+    name is new), or a `mutate(n, v)` / the `mutate(n, m.orig, "rollback")` a `rollback_mutation(n)` resolves to, on `i`,
+    and at that moment mutations were enabled on `i` or the callback installed on `i` answered `approve` to call number
+    `st.calls` — the call this very operation made — asked about exactly (gene `n`, the value stored before, `v`, the
+    reason); the gene keeps its record with value `v`, and exactly that approved entry was appended to the log.  (The
+    history theorems above speak of "some call"; this one pins the call, also for callbacks whose answers depend on
+    the call number.) -/
+theorem c20_value_change_needs_exact_approval (env : Env ν) (st : Store ν) (op : Op ν) (i n : Nat) (g g' : Genome ν)
+    (hi : st.genomes[i]? = some g) (hi' : (step env st op).1.genomes[i]? = some g')
+    (hch : findGene g'.genes n ≠ findGene g.genes n) :
+    (∃ x, op = .add i x ∧ x.name = n ∧ (g.allow = true ∨ findGene g.genes n = none)) ∨
+    (∃ v r og, findGene g.genes n = some og ∧
+      ((op = .mutate i n v ∧ r = .user) ∨
+        (op = .rollback i n ∧ r = .rollback ∧ ∃ m, lastApproved g.log n = some m ∧ v = m.orig)) ∧
+      (g.allow = true ∨ ∃ c, g.cb = some c ∧ env.adv c st.calls n og.value v r = .approve) ∧
+      findGene g'.genes n = some { og with value := v } ∧ g'.log = g.log ++ [⟨n, og.value, v, r, true⟩]) := by
+  -- what a `mutate env st.calls g n' v r` that changed gene `n` must have been
+  have key : ∀ (n' : Nat) (v : ν) (r : Reason) (g₁ : Genome ν) (b : Bool) (k : Nat),
+      mutate env st.calls g n' v r = .done g₁ b k → findGene g₁.genes n ≠ findGene g.genes n →
+      n' = n ∧ ∃ og, findGene g.genes n = some og ∧
+        (g.allow = true ∨ ∃ c, g.cb = some c ∧ env.adv c st.calls n og.value v r = .approve) ∧
+        findGene g₁.genes n = some { og with value := v } ∧ g₁.log = g.log ++ [⟨n, og.value, v, r, true⟩] := by
+    intro n' v r g₁ b k hm hne
+    have happ : ∀ og, findGene g.genes n' = some og → g₁ = applyMut g og n' v r →
+        (g.allow = true ∨ ∃ c, g.cb = some c ∧ env.adv c st.calls n' og.value v r = .approve) →
+        n' = n ∧ ∃ og, findGene g.genes n = some og ∧
+          (g.allow = true ∨ ∃ c, g.cb = some c ∧ env.adv c st.calls n og.value v r = .approve) ∧
+          findGene g₁.genes n = some { og with value := v } ∧ g₁.log = g.log ++ [⟨n, og.value, v, r, true⟩] := by
+      intro og hf hg hauth
+      have hname := findGene_some_name hf
+      have hnn : n' = n := by
+        by_cases h : n = n'
+        · exact h.symm
+        · exfalso; apply hne; rw [hg]; simp only [applyMut]
+          rw [findGene_putGene_other]; simpa [hname] using h
+      subst hnn
+      refine ⟨rfl, og, hf, hauth, ?_, by rw [hg]; rfl⟩
+      rw [hg]; simpa [applyMut, hname] using findGene_putGene_same g.genes { og with value := v }
+    rcases mutate_cases env st.calls g n' v r with ⟨-, e⟩ | ⟨og, hf, ⟨hal, e⟩ | ⟨-, -, e⟩ |
+      ⟨c, -, hcb, ⟨ha, e⟩ | ⟨-, e⟩ | ⟨-, e⟩⟩⟩
+    · rw [e] at hm; cases hm; exact absurd rfl hne
+    · rw [e] at hm; cases hm; exact happ og hf rfl (Or.inl hal)
+    · rw [e] at hm; cases hm; exact absurd rfl hne
+    · rw [e] at hm; cases hm; exact happ og hf rfl (Or.inr ⟨c, hcb, ha⟩)
+    · rw [e] at hm; cases hm; exact absurd rfl hne
+    · rw [e] at hm; cases hm
+  by_cases hmu : op.mutator = some i
+  · cases op with
+    | add i' x =>
+      simp only [Op.mutator, Option.some.injEq] at hmu; subst hmu
+      rw [step_add hi] at hi'
+      have hs := getElem?_set_of_some (i := i') (a := (addGene g x).1) hi
+      rw [if_pos rfl] at hs
+      simp only at hi'; rw [hs] at hi'; cases hi'
+      left
+      unfold addGene at hch
+      split at hch
+      · exact absurd rfl hch
+      · rename_i hc
+        have hxn : x.name = n := by
+          by_cases h : n = x.name
+          · exact h.symm
+          · exfalso; apply hch; simp only; exact findGene_putGene_other _ _ h
+        refine ⟨x, rfl, hxn, ?_⟩
+        subst hxn
+        cases hal : g.allow with
+        | true => exact Or.inl rfl
+        | false =>
+          right
+          cases hf : findGene g.genes x.name with
+          | none => rfl
+          | some y => simp [hal, hf] at hc
+    | mutate i' n' v =>
+      simp only [Op.mutator, Option.some.injEq] at hmu; subst hmu
+      cases hm : mutate env st.calls g n' v .user with
+      | raised k => rw [step_mutate_raised hi hm] at hi'; rw [hi] at hi'; cases hi'; exact absurd rfl hch
+      | done g₁ b k =>
+        rw [step_mutate_done hi hm] at hi'
+        have hs := getElem?_set_of_some (i := i') (a := g₁) hi
+        rw [if_pos rfl] at hs
+        simp only at hi'; rw [hs] at hi'; cases hi'
+        obtain ⟨rfl, og, hf, hauth, hv, hl⟩ := key n' v .user g' b k hm hch
+        exact Or.inr ⟨v, .user, og, hf, Or.inl ⟨rfl, rfl⟩, hauth, hv, hl⟩
+    | rollback i' n' =>
+      simp only [Op.mutator, Option.some.injEq] at hmu; subst hmu
+      cases hla : lastApproved g.log n' with
+      | none =>
+        have : rollback env st.calls g n' = .done g false st.calls := by unfold rollback; rw [hla]
+        rw [step_rollback_done hi this] at hi'
+        have hs := getElem?_set_of_some (i := i') (a := g) hi
+        rw [if_pos rfl] at hs
+        simp only at hi'; rw [hs] at hi'; cases hi'; exact absurd rfl hch
+      | some m =>
+        have hrb : rollback env st.calls g n' = mutate env st.calls g n' m.orig .rollback := by
+          unfold rollback; rw [hla]
+        cases hm : mutate env st.calls g n' m.orig .rollback with
+        | raised k =>
+          rw [step_rollback_raised hi (hrb.trans hm)] at hi'; rw [hi] at hi'; cases hi'; exact absurd rfl hch
+        | done g₁ b k =>
+          rw [step_rollback_done hi (hrb.trans hm)] at hi'
+          have hs := getElem?_set_of_some (i := i') (a := g₁) hi
+          rw [if_pos rfl] at hs
+          simp only at hi'; rw [hs] at hi'; cases hi'
+          obtain ⟨rfl, og, hf, hauth, hv, hl⟩ := key n' m.orig .rollback g' b k hm hch
+          exact Or.inr ⟨m.orig, .rollback, og, hf, Or.inr ⟨rfl, rfl, m, hla, rfl⟩, hauth, hv, hl⟩
+    | setExpr _ _ _ => simp [Op.mutator] at hmu
+    | assign _ _ => simp [Op.mutator] at hmu
+    | new _ _ _ _ => simp [Op.mutator] at hmu
+    | replicate _ _ _ => simp [Op.mutator] at hmu
+    | express _ _ => simp [Op.mutator] at hmu
+    | getValue _ _ => simp [Op.mutator] at hmu
+    | validate _ => simp [Op.mutator] at hmu
+    | listGenes _ => simp [Op.mutator] at hmu
+    | diff _ _ => simp [Op.mutator] at hmu
+    | stats _ => simp [Op.mutator] at hmu
+  · obtain ⟨g'', h'', -, -, -, hsame⟩ := step_frame env st op i g hi
+    rw [hi'] at h''; cases h''
+    exact absurd (by rw [(hsame hmu).1]) hch
+
+/-- **Over histories: every change of a stored value is pinned to one call of the history.**  If after ANY history
+    genome `i` shows something else under gene `n` than before, the history splits as `pre ++ op :: post` such that
+    this very `op`, executed in the store reached by `pre` (callback-call counter `(run env st pre).calls`), changed
+    what is stored under `n` — and `c20_value_change_needs_exact_approval` applies to that step: it is an `add_gene`
+    under `allow_mutations` (or of a new name), or a `mutate` / rollback for which mutations were enabled at that moment
+    or the callback installed at that moment answered `approve` to call number `(run env st pre).calls` about exactly
+    this gene, the value stored at that moment, and the value written. -/
+theorem c20_history_value_change_pins_the_call (env : Env ν) (ops : List (Op ν)) :
+    ∀ (st : Store ν) (i n : Nat) (g g' : Genome ν), st.genomes[i]? = some g →
+      (run env st ops).genomes[i]? = some g' → findGene g'.genes n ≠ findGene g.genes n →
+      ∃ pre op post g₁ g₂, ops = pre ++ op :: post ∧ (run env st pre).genomes[i]? = some g₁ ∧
+        (step env (run env st pre) op).1.genomes[i]? = some g₂ ∧ findGene g₂.genes n ≠ findGene g₁.genes n ∧
+        ((∃ x, op = .add i x ∧ x.name = n ∧ (g₁.allow = true ∨ findGene g₁.genes n = none)) ∨
+         (∃ v r og, findGene g₁.genes n = some og ∧
+           ((op = .mutate i n v ∧ r = .user) ∨
+             (op = .rollback i n ∧ r = .rollback ∧ ∃ m, lastApproved g₁.log n = some m ∧ v = m.orig)) ∧
+           (g₁.allow = true ∨ ∃ c, g₁.cb = some c ∧ env.adv c (run env st pre).calls n og.value v r = .approve) ∧
+           findGene g₂.genes n = some { og with value := v } ∧ g₂.log = g₁.log ++ [⟨n, og.value, v, r, true⟩])) := by
+  induction ops with
+  | nil =>
+    intro st i n g g' hi hi' hch
+    rw [run_nil, hi] at hi'; cases hi'; exact absurd rfl hch
+  | cons op rest ih =>
+    intro st i n g g' hi hi' hch
+    obtain ⟨g₁, h₁, -, -, -, -⟩ := step_frame env st op i g hi
+    by_cases h : findGene g₁.genes n = findGene g.genes n
+    · rw [run_cons] at hi'
+      obtain ⟨pre, op', post, a, b, hsplit, ha, hb, hne, hex⟩ := ih _ i n g₁ g' h₁ hi' (by rw [h]; exact hch)
+      exact ⟨op :: pre, op', post, a, b, by rw [hsplit]; rfl, by rw [run_cons]; exact ha,
+        by rw [run_cons]; exact hb, hne, by rw [run_cons]; exact hex⟩
+    · exact ⟨[], op, rest, g, g₁, rfl, hi, h₁, h, c20_value_change_needs_exact_approval env st op i n g g₁ hi h₁ h⟩
+
+/-- **The hash changes only if a stored gene changed** — so, by `c20_history_value_change_pins_the_call`, only through
+    a call of the history that was an `add_gene` under `allow_mutations` / of a new name or an exactly-approved
+    `mutate` / rollback (also when the callback approves SOME changes: no `Unauth` hypothesis here). -/
+theorem c20_hash_change_needs_a_gene_change (env : Env ν) (st : Store ν) (hw : WF st) (ops : List (Op ν)) (i : Nat)
+    (g g' : Genome ν) (hi : st.genomes[i]? = some g) (hi' : (run env st ops).genomes[i]? = some g')
+    (hch : canon g' ≠ canon g) : ∃ n, findGene g'.genes n ≠ findGene g.genes n := by
+  apply Classical.byContradiction
+  intro hno
+  apply hch
+  have hw₁ : WFG g := hw g (List.mem_of_getElem? hi)
+  have hw₂ : WFG g' := run_wf env ops st hw g' (List.mem_of_getElem? hi')
+  rw [canon_eq_iff hw₂ hw₁]
+  intro n
+  have : findGene g'.genes n = findGene g.genes n := by
+    apply Classical.byContradiction
+    intro h; exact hno ⟨n, h⟩
+  simp [valueOf, this]
+
 /-- In an unauthorised genome no `mutate`, no `rollback_mutation` and no re-`add_gene` ever reports success. -/
 theorem c20_unauthorised_calls_never_succeed (env : Env ν) (st : Store ν) (i : Nat) (g : Genome ν)
     (hi : st.genomes[i]? = some g) (hal : g.allow = false) (hna : NeverApproves env g) :
